@@ -243,10 +243,7 @@ func c02Build(p string, min, max int, check bool) (*MemoryChannelStore, *c02Mode
 	m := &c02Model{}
 	n := min + zzsym.Choice(p+".proposals", max-min+1)
 	for k := 0; k < n; k++ {
-		cnt := 1
-		if k == 0 || zzsym.Thorough() {
-			cnt = 1 + zzsym.Choice(p+".count", 2) // quick: only the first proposal has 1-2 records
-		}
+		cnt := 1 + zzsym.Choice(p+".count", 2)
 		base := m.leo()
 		prev := m.tail()
 		man := ch.ProposalManifest{
